@@ -21,7 +21,9 @@ LEVEL_TEXT = ("Exploration: 1-5 atoms (6 in the thorough tier), 2-12 time steps,
               "the interaction matrix (with exact-zero couplings), the initial state (complex), torch parameters of Constant/Ramp/Blackman/Kaiser/Custom/Composite waveforms and pulse phases; "
               "losses = random combinations of occupation, correlation matrix and fidelity at the final time (stratum F), at several times (stratum M) and with energy / second moment / variance (stratum E); "
               "every gradient must be finite and every directional derivative must equal the finite difference within 2e-5 relative + the finite-difference error estimate.")
-LEVEL_NOTE = ("InterpolatedWaveform with torch values is refused by pulser-core itself (numpy() on a tensor that requires grad) and StateResult cannot be deep-copied under autograd by Pulser: both are counted as "
+LEVEL_NOTE = ("A disagreement in a waveform-parameter direction is first checked upstream: if the autograd Jacobian of pulser-core's own per-ns samples differs from their finite-difference Jacobian "
+              "(seen: the last sample of a pulse has zero gradient w.r.t. a Ramp's stop value when the pulse phase requires grad) the direction is counted as a Pulser sampler defect and not judged. "
+              "InterpolatedWaveform with torch values is refused by pulser-core itself (numpy() on a tensor that requires grad) and StateResult cannot be deep-copied under autograd by Pulser: both are counted as "
               "rejections by Pulser, not as emulator behaviour. Directions in which the forward and backward one-sided differences disagree (kinks: amplitude clamp, PCHIP regime change) are skipped and counted.")
 RULE = "(leaf kind, loss stratum, N, #steps); distinct = that tuple plus the waveform kinds; non-trivial = the gradient norm exceeds 1e-4 and at least one leaf value is an exact zero or comes from a flat segment"
 ASSUMPTIONS = ["finite differences re-run the complete backend with krylov_tolerance 1e-12 at steps h, 2h, 4h (h = 1e-3) with Richardson extrapolation: below |h| ~ 1e-4 the emulated function itself is rough at the 1e-11 level because the adaptive Krylov iteration stops at different dimensions (first seen as a 2% slope change at h <= 1e-4 for an exactly-zero amplitude); tolerance = 2e-5*max(|fd|,|ad|) + 4*|R(h)-R(2h)| + 2e-8",
@@ -307,6 +309,44 @@ class Experiment:
         return float(L), g
 
 
+def _pulser_samples_differentiable(ex, theta0, v, h=1e-4):
+    """True iff the directional derivative of a fixed random functional of Pulser's per-ns samples (as the adapter receives them) agrees
+    between autograd and central differences."""
+    import torch
+    import emu_base.pulser_adapter as pa
+
+    cap = {}
+    orig = pa._extract_omega_delta_phi
+
+    def wrap(noisy_samples, qubit_ids, target_times):
+        d = noisy_samples.to_nested_dict(all_local=True, samples_type="tensor")["Local"]
+        d = d.get("ground-rydberg", d.get("XY"))
+        cap["sig"] = torch.cat([torch.as_tensor(d[q][nm]).real.reshape(-1).to(torch.float64) for q in qubit_ids if q in d for nm in ("amp", "det", "phase")])
+        return orig(noisy_samples, qubit_ids, target_times)
+
+    pa._extract_omega_delta_phi = wrap
+    try:
+        th = theta0.clone().requires_grad_(True)
+        ex.loss(th)
+        sig = cap["sig"]
+        w = torch.tensor(np.random.default_rng(7).normal(size=sig.numel()))
+        if not sig.requires_grad:
+            return True
+        g, = torch.autograd.grad((w * sig).sum(), th, allow_unused=True)
+        ad = 0.0 if g is None else float((g * v).sum())
+        with torch.no_grad():
+            ex.loss(theta0 + h * v)
+            sp = float((w * cap["sig"]).sum())
+            ex.loss(theta0 - h * v)
+            sm = float((w * cap["sig"]).sum())
+        fd = (sp - sm) / (2 * h)
+        return abs(ad - fd) <= 1e-6 * max(1.0, abs(fd))
+    except Exception:
+        return True
+    finally:
+        pa._extract_omega_delta_phi = orig
+
+
 def run_case(case):
     import warnings
 
@@ -379,7 +419,7 @@ def run_case(case):
             continue
         tol = 2e-5 * scale + 4 * abs(fd - fd2) + 2e-8
         cnt["directions_compared"] += 1
-        worst = max(worst, abs(ad - fd) / tol)
+        frac_ = abs(ad - fd) / tol
         if abs(ad - fd) > tol and float((theta0[: (ex.shape[0] * ex.shape[1]) if ex.kind == "steps" else 0] == 0).sum()) > 0:
             # exactly-zero amplitudes: the forward pass itself is rough there (adaptive Krylov stops early for a tiny coupling: known finding
             # C07/C01), so small-step differences measure that roughness. If the derivative at a 10x coarser scale agrees with autograd, the
@@ -396,6 +436,12 @@ def run_case(case):
                         continue
                 except Exception:
                     pass
+        if abs(ad - fd) > tol and ex.kind == "wf" and not _pulser_samples_differentiable(ex, theta0, v):
+            # pulser-core's own sampler returned samples whose autograd Jacobian differs from their finite-difference Jacobian (seen: the last
+            # sample of a pulse loses its gradient when the pulse phase requires grad): upstream of the emulators, counted and not judged
+            cnt["pulser_sampler_gradient_defects"] = cnt.get("pulser_sampler_gradient_defects", 0) + 1
+            continue
+        worst = max(worst, frac_)  # only directions that are judged
         if abs(ad - fd) > tol:
             leafname = name
             if ex.kind == "steps" and name.startswith("coordinate"):
